@@ -27,7 +27,13 @@ class LatencyPeer(P.ScriptedPeer):
     with foreign_first=True the first attempt of some requests is answered by a frame of another unit (provokes a retry)"""
     foreign_first = False
 
+    silent_unit0 = False
+
     def answer(self, conn, f):
+        if self.silent_unit0 and not f.unit:
+            self.i += 1
+            self.events.append((self.i - 1, 'none', f.key(), b''))
+            return                                   # nobody answers a broadcast
         own = self.own_reply(f)
         self.i += 1
         self.events.append((self.i - 1, 'own', f.key(), own))
@@ -53,16 +59,20 @@ def expected_registers(addr, count):
 
 
 def one_schedule(kind, nthreads, ntx, chooser, preconnect, wrap_lock=True, variant='plain'):
-    """variant: plain | units (every thread talks to its own unit id) | retry (retry options on, some first replies come from a foreign unit)"""
+    """variant: plain | units (every thread talks to its own unit id) | retry (retry options on, some first replies come from a foreign unit)
+    | broadcast (broadcast_enable on; every second thread sends unit-0 writes that nobody answers)"""
     framing = IO.framing_of(kind)
     sched = Sched(chooser)
     peer = LatencyPeer(framing, timeout=1.0)
     peer.foreign_first = (variant == 'retry')
+    peer.silent_unit0 = (variant == 'broadcast')
     env = IO.Env(peer, sched=sched)
     env.op_limit = 50000
     results = {}
     with IO.installed(env):
         kw = dict(retries=2, retry_on_empty=True, retry_on_invalid=True) if variant == 'retry' else {}
+        if variant == 'broadcast':
+            kw['broadcast_enable'] = True
         client = IO.make_client(kind, timeout=1.0, **kw)
         if preconnect:
             client.connect()
@@ -78,6 +88,11 @@ def one_schedule(kind, nthreads, ntx, chooser, preconnect, wrap_lock=True, varia
                     addr, cnt = 1000 + i * 100 + j, 1 + (i + j) % 3
                     env.trace.append((name, 'call', addr, round(env.clock.now, 6)))
                     try:
+                        if variant == 'broadcast' and i % 2:
+                            r = client.write_register(addr, 0x1234 + i, unit=0)
+                            results[(i, j)] = (addr, 0, [] if not hasattr(r, 'isError') and not isinstance(r, Exception) else None, repr(r)[:80])
+                            env.trace.append((name, 'return', addr, round(env.clock.now, 6)))
+                            continue
                         r = client.read_holding_registers(addr, cnt, unit=(1 + i * 7 if variant == 'units' else 1))
                         results[(i, j)] = (addr, cnt, getattr(r, 'registers', None), repr(r)[:80])
                     except IO.StepWatchdog:
@@ -197,10 +212,12 @@ def run(run):
                 ('rtu', 4, 2, True, 0, 2000), ('tcp', 2, 1, False, 2000, 0), ('tcp', 2, 2, False, 3000, 500), ('rtu', 2, 1, False, 1000, 200)]
     plan = [p + ('plain',) for p in plan]
     if run.thorough:
-        plan = [('tcp', 2, 2, True, 3000, 500, 'units'), ('tcp', 3, 1, True, 3000, 0, 'units'), ('rtu', 2, 2, True, 1000, 500, 'units'),
+        plan = [('rtu', 2, 2, True, 2000, 500, 'broadcast'), ('ascii', 2, 2, True, 2000, 500, 'broadcast'), ('tcp', 3, 1, True, 3000, 500, 'broadcast'),
+                ('binary', 3, 1, True, 1000, 500, 'broadcast'), ('tcp', 2, 2, True, 3000, 500, 'units'), ('tcp', 3, 1, True, 3000, 0, 'units'), ('rtu', 2, 2, True, 1000, 500, 'units'),
                  ('tcp', 2, 2, True, 3000, 1000, 'retry'), ('tcp', 3, 1, True, 2000, 500, 'retry'), ('rtu', 2, 1, True, 1500, 300, 'retry')] + plan
     else:
-        plan = [('tcp', 2, 2, True, 150, 50, 'units'), ('tcp', 3, 1, True, 100, 0, 'units'), ('rtu', 2, 1, True, 80, 0, 'units'),
+        plan = [('rtu', 2, 1, True, 80, 30, 'broadcast'), ('ascii', 2, 2, True, 60, 60, 'broadcast'), ('tcp', 3, 1, True, 80, 40, 'broadcast'),
+                ('tcp', 2, 2, True, 150, 50, 'units'), ('tcp', 3, 1, True, 100, 0, 'units'), ('rtu', 2, 1, True, 80, 0, 'units'),
                  ('tcp', 2, 2, True, 150, 80, 'retry'), ('tcp', 3, 1, True, 100, 50, 'retry'), ('rtu', 2, 1, True, 80, 30, 'retry')] + plan
     for idx, (kind, nt, ntx, pre, limit, sample, variant) in enumerate(plan):
         if not run.mine(idx):
